@@ -21,6 +21,7 @@ mod validate;
 mod vgen;
 mod vxlate;
 mod vctor;
+mod verboseiter;
 mod text;
 mod translate;
 mod tree;
